@@ -1064,6 +1064,13 @@ MUTANTS = [
     dict(name='c15-indexer-wrong-tag', prop='C15', clause='D5', edits=[
         ('include/oneapi/tbb/detail/_flow_graph_indexer_impl.h', "            auto indexer_node_put_task = do_try_put<IndexerNodeBaseType, T, N-1>;\n            std::get<N-1>(my_input).set_up(p, indexer_node_put_task, g);\n            indexer_helper<TupleTypes,N-1>",
          "            auto indexer_node_put_task = do_try_put<IndexerNodeBaseType, T, 0>;\n            std::get<N-1>(my_input).set_up(p, indexer_node_put_task, g);\n            indexer_helper<TupleTypes,N-1>")]),
+    dict(name='c15-seed3-pqn-reheap-bounded-by-tail', prop='C15', clause='D3', edits=[(FG_H, """        while (child < mark) {
+            size_type target = child;
+            if (child+1<mark &&""", """        while (child < this->my_tail) {
+            size_type target = child;
+            if (child+1 < this->my_tail &&""")]),
+    dict(name='c15-pqn-copy-drops-comparator', prop='C15', clause='D3', edits=[(FG_H,
+        "        : buffer_node<T>(src), compare(src.compare), mark(0)", "        : buffer_node<T>(src), mark(0)")]),
     # ---------------------------------------------------------------- C16
     dict(name='c16-try_occupy-store', prop='C16', clause='D1', edits=[
         (AS_H, "        return !is_occupied() && my_is_occupied.exchange(true) == false;", "        return !is_occupied() && (my_is_occupied.store(true), true);")]),
@@ -1116,6 +1123,10 @@ MUTANTS = [
     dict(name='c17-realloc-free-on-failure', prop='C17', clause='D2', edits=[
         (FE_CPP, "    if (result) {\n        memcpy(result, ptr, copySize < newSize ? copySize : newSize);\n        internalPoolFree(memPool, ptr, 0);\n    }",
          "    if (result) {\n        memcpy(result, ptr, copySize < newSize ? copySize : newSize);\n    }\n    internalPoolFree(memPool, ptr, 0);")]),
+    dict(name='c17-seed3-remap-of-a-shared-region', prop='C17', clause='D5', edits=[('src/tbbmalloc/backend.cpp', """    if (oldRegion->type != MEMREG_ONE_BLOCK)
+        return nullptr;  // we are not single in the region
+""", """    MALLOC_ASSERT( oldRegion->type == MEMREG_ONE_BLOCK, ASSERT_TEXT );
+""")]),
     # ---------------------------------------------------------------- C18
     dict(name='c18-memalign-no-check', prop='C18', clause='D1', edits=[
         (FE_CPP, "    if ( !isPowerOfTwoAtLeast(alignment, sizeof(void*)) )\n        return EINVAL;\n", "")]),
@@ -1141,6 +1152,12 @@ MUTANTS = [
     dict(name='c18-user-pool-maps-os', prop='C18', clause='D3', edits=[
         ('src/tbbmalloc/backend.cpp', "        allocSize = alignUpGeneric(size, extMemPool->granularity);\n        res = (*extMemPool->rawAlloc)(extMemPool->poolId, allocSize);",
          "        allocSize = alignUpGeneric(size, extMemPool->granularity);\n        res = (*extMemPool->rawAlloc)(extMemPool->poolId, allocSize);\n        if (!res) res = getRawMemory(allocSize, REGULAR);")]),
+    dict(name='c18-remap-size-not-checked-for-wrap', prop='C18', clause='D1', edits=[('src/tbbmalloc/backend.cpp', """    if (alignedSize < newSize) // is wrapped around?
+        return nullptr;
+""", """""")]),
+    dict(name='c18-llocache-size-not-checked-for-wrap', prop='C18', clause='D1', edits=[(FE_CPP, """    if (allocationSize < size) // allocationSize is wrapped around after alignToBin
+        return nullptr;
+""", """""")]),
     # ---------------------------------------------------------------- C19
     dict(name='c19-guard-after-fetch_sub', prop='C19', clause='D2', edits=[
         (CO_H, "                    collaborative_once_runner::lifetime_guard guard{*shared_runner};\n                    m_state.fetch_sub(1);",
